@@ -1,6 +1,8 @@
 (* SidsCodecProofs.v -- laws of the codec combinators of SidsCodec.v and the round-trip theorems of property C01. *)
 From Coq Require Import ZArith List Bool Lia Permutation.
-From CgnsV Require Import ListX TreeDB SidsCodec.
+From Coq Require String.
+Import String.StringSyntax.
+From CgnsV Require Import ListX TreeDB SidsRows Gen_C01 SidsCodec.
 Import ListNotations.
 Local Open Scope Z_scope.
 
@@ -564,3 +566,30 @@ Qed.
 Corollary roundtrip_kind (K : kind) : schema_ok = true -> forall c e, ekind e = K -> wf c e = true ->
   dec c K (enc e) = Some (view e).
 Proof. intros Hs c e <- Hw. now apply roundtrip. Qed.
+
+(* ====================================================================================================== *)
+(* the schema of SidsCodec.spec is usable (kernel evaluation), and the consequences for the concrete schema  *)
+(* ====================================================================================================== *)
+Lemma schema_ok_true : schema_ok = true.
+Proof. vm_compute. reflexivity. Qed.
+
+Definition roundtrip_all := roundtrip schema_ok_true.
+Definition roundtrip_file_all := roundtrip_file schema_ok_true.
+Definition roundtrip_of_kind (K : kind) := roundtrip_kind K schema_ok_true.
+
+(* The property at full strength -- EVERY accepted call sequence is read back -- is false of the sources as long as
+   cgi_read_node allocates no buffer for complex data: cg_array_write accepts ComplexSingle under IntegralData_t, whose
+   arrays are loaded by cg_open, and the reader fails.  (Stated so that it stays true when the sources are repaired:
+   the list of allocated types is regenerated.) *)
+Definition complex_witness : list call :=
+  [mkCall F_base [] (s "B") [3; 3] [] [];
+   mkCall F_integral [(KBase, 1)] (s "I") [] [] [];
+   mkCall F_array [(KBase, 1); (KIntegral, 1)] (s "A") [] [] [(dX4, [1], [0; 0; 128; 63; 0; 0; 0; 64])]].
+Lemma complex_array_refuted :
+  if dt_in dts_loadable dX4 then True
+  else exists root idxs, run root0 complex_witness = Some (root, idxs) /\ read_file (enc root) = None.
+Proof.
+  destruct (dt_in dts_loadable dX4) eqn:E; [exact I|].
+  first [ vm_compute in E; discriminate
+        | eexists; eexists; split; vm_compute; reflexivity ].
+Qed.
